@@ -1,2 +1,5 @@
 -- root of the library: every finished property module (built by MANIFEST.setup_cmd)
+import WindVerif.Props.C06
+import WindVerif.Props.C07
 import WindVerif.Props.C08
+import WindVerif.Props.C09
